@@ -22,6 +22,14 @@ snap travels as "offlattice" and is rejected) and has TLC validate every record 
 Python computes no expected value: which rays / points are in general position, which triangles are
 crossed, which hit is first, inside / outside and every distance are decided by TLC.
 Records outside the property's quantifier come back as SKIP_ clauses and are only counted.
+
+Named deviation (RayProx.tla, EngClause): CoplanarRayPhantomHit - a first-hit query names a triangle
+whose supporting plane contains the ray although the ray is clear of the triangle.  Observed on the
+pinned tree with the float32 embree engine (intersects_first / intersects_any / intersects_id(
+multiple_hits=False) report the triangle, intersects_location reports nothing).  Such rejections are
+handed to the Verdict under that deviation id: listed in known_findings.jsonl they are reported as
+KNOWN-FINDING, otherwise they are violations.  The quick tier always includes the rays lying in the
+plane of an oblique face, so the observation does not depend on the seed.
 """
 import itertools
 import json
@@ -249,8 +257,9 @@ def point_items(tier, mi, me, rs):
         near = [v for v in me["verts"] if all(-2 <= x <= 5 for x in v)]
         lo, hi = np.min(near, axis=0) * 4, np.max(near, axis=0) * 4
         inbox = [P for P in PTS_ODD if all(lo[a] < P[a] < hi[a] for a in range(3))]
-        pts = [inbox[j] for j in rs.choice(len(inbox), min(300, len(inbox)), replace=False)]
-        pts += [PTS_ODD[j] for j in rs.choice(len(PTS_ODD), 700, replace=False)]
+        # dense inside the bounding box of the near bodies (corners, reentrant edges, the gap between bodies)
+        pts = [inbox[j] for j in rs.choice(len(inbox), min(900, len(inbox)), replace=False)]
+        pts += [PTS_ODD[j] for j in rs.choice(len(PTS_ODD), 600, replace=False)]
         pts = sorted(set(pts))
     return [{"kind": "pt", "mi": mi, "P": list(P), "k": 4} for P in pts]
 
@@ -638,8 +647,8 @@ def main(argv):
             "{-7/4..21/4}^3, directions {-2..2}^3 \\ 0): ~2300 random (origin, direction) pairs aimed through the "
             "bounding box of the near bodies, 400 unaimed ones, all six axis directions x up to 160 origins, up to "
             "800 rays lying in the plane of a face (all of those in the plane of an oblique face, up to 600); and "
-            "up to 1000 of the 3375 "
-            "odd-quarter points of {-7/4..21/4}^3 (300 of them inside the bounding box)"),
+            "up to 1500 of the 3375 "
+            "odd-quarter points of {-7/4..21/4}^3 (up to 900 of them inside the bounding box of the near bodies)"),
         "snapping": ("hit locations: Fraction.limit_denominator(%d), residual 1e-9 (native engine) / 1e-4 (embree "
                      "engine, float32 tracing); closest points: denominator <= %d, squared distances: denominator "
                      "<= %d, residual 1e-9; residuals relative to max(1, |x|)" % (SNAP_RAY, SNAP_PT, SNAP_D2)),
